@@ -156,6 +156,11 @@ func unescapeMap(fields Config) Config {
 		if key[0] == '_' {
 			key = key[1:]
 		}
+		if key == "" {
+			// only the escape character: there is no field to rename,
+			// and an empty path would address the event root itself
+			return
+		}
 		newConfig.Append(key, value)
 	})
 	return newConfig
